@@ -15,7 +15,7 @@ RULE = ("reference arithmetic: rows/columns 1..9 x all anchors x all absolute/re
         "ranges with both corners anywhere in the window (3 anchors quick / 5 thorough), full-row/full-column ranges and near misses, the last 6 rows/columns; "
         "where cells go: 9x9 marker windows at every position incl. the end of the sheet; stored references: 162 planted formulas per (position, delta, same/other sheet, target sheet) read back from parsed_formulas; "
         "property oracle: generated two-sheet workbooks (literals of every type incl. quote-prefixed look-alikes, 17-digit numbers, URLs; relative/absolute/mixed/cross-sheet references, ranges, A:C and 2:5 ranges, "
-        "cell/row/column styles, links, multi-column descriptors) x every block position 1..9, size 1..3 and offset -4..4 of the window (rotating through the workbooks), through Model and through UserModel with hidden rows/columns; block moves 1..9 x 1..4 x -4..4 observed line by line (blk) and reference by reference (appb); UserModel hidden-line delta for every hidden subset of size <= 2 (quick) / 3 (thorough) of a 12-line window and at the last lines; plus move followed by the opposite move / undo = identity. "
+        "cell/row/column styles, links, multi-column descriptors; in half of them non-square CSE array formulas 2x3/3x1/1x3 and a dynamic array beside the window) x every block position 1..9, size 1..3 and offset -4..4 of the window (rotating through the workbooks), through Model and through UserModel with hidden rows/columns; block moves 1..9 x 1..4 x -4..4 observed line by line (blk) and reference by reference (appb); UserModel hidden-line delta for every hidden subset of size <= 2 (quick) / 3 (thorough) of a 12-line window and at the last lines; plus move followed by the opposite move / undo = identity. "
         "Non-trivial = distinct observations of the model-vs-implementation cases")
 
 def run(cfg):
